@@ -216,17 +216,27 @@ class Prelude:
         key = "Tup_" + "_".join(_sortname(s) for s in sorts)
         if key not in self.tuples:
             dt = z3.Datatype(key)
-            dt.declare("mk", *[(f"f{i}", s) for i, s in enumerate(sorts)])
-            self.tuples[key] = dt.create()
+            dt.declare("mk_" + key, *[(f"f{i}_{key}", s) for i, s in enumerate(sorts)])   # sort-specific names, as above
+            d = dt.create()
+            d.mk = getattr(d, "mk_" + key)
+            self.tuples[key] = d
         return self.tuples[key]
 
     def opt_of(self, sort: z3.SortRef):
         key = "Opt_" + _sortname(sort)
         if key not in self.opts:
+            # constructor and accessor names carry the sort: SMT-LIB front ends (z3 CLI, cvc5) reject a bare `none`
+            # as ambiguous as soon as a query uses two option sorts
             dt = z3.Datatype(key)
-            dt.declare("none")
-            dt.declare("some", ("val", sort))
-            self.opts[key] = dt.create()
+            dt.declare("none_" + key)
+            dt.declare("some_" + key, ("val_" + key, sort))
+            d = dt.create()
+            d.none = getattr(d, "none_" + key)
+            d.some = getattr(d, "some_" + key)
+            d.is_none = getattr(d, "is_none_" + key)
+            d.is_some = getattr(d, "is_some_" + key)
+            d.val = getattr(d, "val_" + key)
+            self.opts[key] = d
         return self.opts[key]
 
     def strlit(self, text: str) -> z3.ExprRef:
